@@ -449,6 +449,33 @@ def argDemandedByName (names : List QName) (classes : List ClassD) (ty : QName) 
   | .own i => argDemanded classes i
   | .foreign _ => none
 
+/-! ### the names a class contributes (default templates)
+
+`LUA_userdata_type_template = "{LUA_prefix}{cxx_class}_Type"`, `LUA_class_reg_template =
+"{LUA_prefix}{cxx_class}_Reg"`, `LUA_metadata_template = "{cxx_class}.metatable"`, `LUA_ctor_name_template =
+"{cxx_class}"`: every default is a function of the UNQUALIFIED class name only (injective in it).  The userdata
+struct is a `typedef` in the header and the method table a `static const` array in the module file: two equal
+names are a C redefinition.  `luaL_newmetatable` of a name that exists returns the existing table. -/
+
+structure ClassNames where
+  udt : Nat        -- typedef struct {..} <udt>;
+  reg : Nat        -- static const struct luaL_Reg <reg> [] = ..
+  mt : Nat         -- luaL_newmetatable(L, "<mt>")
+  ctor : Nat       -- {"<ctor>", ..} in the module table
+  deriving DecidableEq, Repr
+
+/-- the default names of a class whose (interned) unqualified name is `n`; four disjoint injective families -/
+def defaultNamesOf (n : Nat) : ClassNames := ⟨4 * n, 4 * n + 1, 4 * n + 2, 4 * n + 3⟩
+
+/-- the names of a class: `format:` fields given by the user, else the defaults of the last component -/
+def classNames (q : QName) (user : Option ClassNames) : ClassNames :=
+  match user with
+  | some u => u
+  | none => defaultNamesOf (q.getLast?.getD 0)
+
+/-- the translation unit has no redefinition: typedef names pairwise distinct and array names pairwise distinct -/
+def noRedefinition (cs : List ClassNames) : Prop := (cs.map (·.udt)).Nodup ∧ (cs.map (·.reg)).Nodup
+
 /-! ### the namespace tree
 
 `wrap_namespace(node)` handles the classes of `node`, then its functions, then calls itself for every
